@@ -210,12 +210,31 @@ func genInbox(r *Rng, prop string, k int) *RunSpec {
 		}
 		f = J{"object": objs}
 	case "Follow":
+		if len(actors) == 1 && r.Bool() {
+			// several peers follow in one activity
+			for _, p := range actorPool {
+				if p != idOf(actors[0]) && r.Bool() {
+					actors = append(actors, p)
+				}
+			}
+			actorIDs = idsOf(actors)
+		}
 		objs := []interface{}{st.Alice.ID}
 		switch r.Intn(4) {
 		case 0:
 			objs = []interface{}{st.Carol.ID}
 		case 1:
 			objs = []interface{}{st.Dave, embedActor(st.Alice.ID)}
+		}
+		if len(actorIDs) >= 2 && r.Bool() {
+			// several followers, answered automatically; the application knows the inbox of some of them already
+			objs = []interface{}{st.Alice.ID}
+			a.OnFollow = 1 + r.Intn(2)
+			if d, ok := st.W.remoteDoc(actorIDs[0]); ok {
+				a.StoredInbox = map[string]string{actorIDs[0]: idOf(d["inbox"])}
+			}
+		}
+		switch r.Intn(6) {
 		case 2:
 			if r.Bool() {
 				// another actor of this server whose IRI differs from the inbox owner's only past the path (servers that
@@ -317,6 +336,15 @@ func genInbox(r *Rng, prop string, k int) *RunSpec {
 	// blocked actors
 	if r.Intn(5) == 0 {
 		a.Blocked = []string{Pick(r, actorPool)}
+	}
+	// the application already knows the inbox of some of the peers (InboxForActor answers for them, the others are fetched)
+	if r.Intn(3) == 0 {
+		a.StoredInbox = map[string]string{}
+		for _, p := range actorPool {
+			if d, ok := st.W.remoteDoc(p); ok && r.Bool() {
+				a.StoredInbox[p] = idOf(d["inbox"])
+			}
+		}
 	}
 	box := st.Alice
 	sp := mk(prop, st, inboxReq("r0", box, hostA, body))
@@ -853,7 +881,9 @@ func oracleInboxOne(c *DriveCtx, res *Result, t *Task) {
 		}
 		var wantIn []string
 		for _, aID := range m.wireTo {
-			if d, fate := docFor(res, aID); fate == "ok" {
+			if in, known := srv.Spec.StoredInbox[aID]; known {
+				wantIn = append(wantIn, in) // the application knows this inbox: nothing is fetched for it
+			} else if d, fate := docFor(res, aID); fate == "ok" {
 				wantIn = append(wantIn, idOf(d["inbox"]))
 			}
 		}
